@@ -12,7 +12,10 @@ NoDocs == <<>>
 MCDocs == << << [code |-> "a", items |-> << <<"_x", "s1">> >>] >>,                                          \* one block, one item
              << [code |-> "A", items |-> << <<"_X", "s3">>, <<"_y", "s1">> >>] >>,                           \* other spellings of the same block / item
              << [code |-> "b", items |-> << <<"_x", "s1">>, <<"_X", "s3">> >>], [code |-> "a", items |-> <<>>] >>,   \* duplicate inside the document; an empty block
-             << [code |-> "a", items |-> << <<"_y", "s3">> >>, loop |-> [names |-> <<"_X", "_z">>, rows |-> << <<"s1", "s3">>, <<"s3", "s1">> >>]] >> >>   \* a two-packet loop; _X may collide with an existing _x
+             << [code |-> "a", items |-> << <<"_y", "s3">> >>, loop |-> [names |-> <<"_X", "_z">>, rows |-> << <<"s1", "s3">>, <<"s3", "s1">> >>]] >>,
+             \* save frames: one frame holding the same name as its block; the frame code repeated in another spelling (reopened)
+             << [code |-> "a", items |-> << <<"_x", "s3">> >>, frames |-> << [code |-> "a", items |-> << <<"_x", "s1">> >>] >>] >>,
+             << [code |-> "A", items |-> <<>>, frames |-> << [code |-> "b", items |-> << <<"_y", "s1">> >>], [code |-> "B", items |-> << <<"_Y", "s3">>, <<"_x", "s3">> >>] >>] >> >>   \* a two-packet loop; _X may collide with an existing _x
 \* a block with a two-item loop of three packets and one scalar; handles h1 (block), l1 (the loop), l2 (the scalar loop)
 ScriptLoop == << [op |-> "cif_create", cif |-> "c1"],
                  [op |-> "create_block", cif |-> "c1", code |-> "a"],
